@@ -4,7 +4,7 @@ __getitem__ is verified against the *table specification*: every mode position p
 fused_to_idxs that writes p (component OwnerComp(p) of a group entry, or a single entry). The table's well-formedness
 (that the constructor builds such a table from the mode string and the declared fused operations) is the bounded part."""
 from pyvc.values import *  # noqa
-from pyvc.absobj import KDDATASET, GETTER, FUSEDENTRY, DATASET
+from pyvc.absobj import KDDATASET, GETTER, FUSEDENTRY, DATASET, MODESTR
 
 F = "kappadata/wrappers/mode_wrapper.py"
 FT = "kappadata/wrappers/torch_wrapper.py"
@@ -81,4 +81,40 @@ GETITEM_INT["defs"] = dict(DEFS, ITEMS=(("r",), "Fst(r) if self.return_ctx else 
 
 LEN = dict(target=f"{F}::ModeWrapper.__len__", self=SELF, returns=INT, ensures=["result == len(self.dataset)"])
 
-CONTRACTS = [GETITEM_INT, LEN]
+FIRST = ("forall(lambda t: implies(0 <= t and t < result, ModeItems(mode)[t] != item)) and 0 <= result and "
+         "result < len(ModeItems(mode)) and ModeItems(mode)[result] == item")
+HELPERS = [
+    dict(target=f"{F}::ModeWrapper.has_item", params={"mode": MODESTR, "item": STR},
+         ensures=["iff(result, exists(lambda t: 0 <= t and t < len(ModeItems(mode)) and ModeItems(mode)[t] == item))"]),
+    dict(target=f"{F}::ModeWrapper.get_item_index", params={"mode": MODESTR, "item": STR},
+         requires=["exists(lambda t: 0 <= t and t < len(ModeItems(mode)) and ModeItems(mode)[t] == item)"],
+         ensures=[FIRST]),
+    dict(target=f"{F}::ModeWrapper.set_item", params={"mode": MODESTR, "item": STR, "batch": TSeq(VAL, mutable=False), "value": VAL},
+         consts={"pos": INT},
+         requires=["len(batch) == len(ModeItems(mode))", "0 <= pos and pos < len(batch) and ModeItems(mode)[pos] == item",
+                   "forall(lambda t: implies(0 <= t and t < pos, ModeItems(mode)[t] != item))"],
+         # exactly the position of `item` changes, everything else passes through
+         ensures=["len(result) == len(batch)",
+                  "forall(lambda k: implies(0 <= k and k < len(batch), result[k] == (value if k == pos else batch[k])))"]),
+    dict(target=f"{F}::ModeWrapper.get_item", name=f"{F}::ModeWrapper.get_item[tuple]",
+         params={"mode": MODESTR, "item": STR, "batch": TSeq(VAL, mutable=False)}, consts={"pos": INT},
+         requires=["len(batch) == len(ModeItems(mode))", "0 <= pos and pos < len(batch) and ModeItems(mode)[pos] == item",
+                   "forall(lambda t: implies(0 <= t and t < pos, ModeItems(mode)[t] != item))"],
+         ensures=["result == batch[pos]"]),
+]
+TW_SELF = {"dataset": DATASET, "mode": MODESTR}
+TORCH = [
+    dict(target=f"{FT}::TorchWrapper._getitem", self=TW_SELF, params={"idx": INT, "ctx": TOpt(VAL), "item_idx": INT},
+         requires=["0 <= idx and idx < len(self.dataset)"],
+         ensures=["result == CompOf(Item(self.dataset, idx), item_idx)"]),
+    dict(target=f"{FT}::TorchWrapper.__getattr__", name=f"{FT}::TorchWrapper.__getattr__[getitem]", self=TW_SELF,
+         concrete={"item": "getitem_class"}, consts={"k": INT, "pos": INT},
+         requires=["0 <= pos and pos < len(ModeItems(self.mode)) and ModeItems(self.mode)[pos] == 'class'",
+                   "forall(lambda t: implies(0 <= t and t < pos, ModeItems(self.mode)[t] != 'class'))"],
+         raises=("AssertionError",),
+         # item `class` of the torch-style sample is the component at its position in the mode string
+         ensures=["implies(0 <= k and k < len(self.dataset), result(k) == CompOf(Item(self.dataset, k), pos))"]),
+    dict(target=f"{FT}::TorchWrapper.__len__", self=TW_SELF, ensures=["result == len(self.dataset)"]),
+]
+
+CONTRACTS = [GETITEM_INT, LEN] + HELPERS + TORCH
